@@ -1,7 +1,7 @@
 """C08 - interpolation integrals and extrema are those of the interpolated curve (structural clauses)."""
 import sympy as sp
 from sympy import Symbol, Function, S
-from ..ir import AnalysisBroken, Undecided, show, strip, strip_casts, walk_stmts, stmt_exprs, walk_expr, calls
+from ..ir import AnalysisBroken, Undecided, show, strip, strip_casts, walk_stmts, stmt_exprs, walk_expr, calls, loop_container
 from ..symx import Symx, State, Arr, is_zero
 from .C01 import evaluator_roles, applied
 
@@ -276,13 +276,13 @@ def extrema2d(prog, ctx):
     for name, want_min in (('Global_Minimum', True), ('Global_Maximum', False)):
         fn = prog.fn(Q2 + name, 0)
         P = Symbol('this.prefactor', real=True)
-        rf = [s for s in walk_stmts(fn.body) if s['k'] == 'RangeFor']
+        rf = [s for s in walk_stmts(fn.body) if s['k'] == 'For' and loop_container(s) is not None]
         inst = 'Interpolation_2D::' + name
         if len(rf) != 1:
             ctx.undecided('C08.e', inst, fn, 'expected one loop over the rows')
             continue
         loop = rf[0]
-        rng = strip(loop['range'])
+        rng, rowi = loop_container(loop)
         grid_ok = rng.get('k') == 'Member' and rng['name'] == 'function_values'
         pb = [c for c in calls(loop['body']) if c.get('kind') == 'method' and c['callee']['name'] == 'push_back']
         if len(pb) != 1:
@@ -298,7 +298,7 @@ def extrema2d(prog, ctx):
         else:
             B = outs[0].value
         probs = []
-        rowv = loop['var']['name']
+        rowv = '%s[%s]' % (sx.lv_name(rng), rowi)
         for tag, wantf in (('P>0', 'MINEL' if want_min else 'MAXEL'), ('P<0', 'MAXEL' if want_min else 'MINEL')):
             a_ = pos_neg(A, P)[0 if tag == 'P>0' else 1]
             b_ = pos_neg(B, P)[0 if tag == 'P>0' else 1]
